@@ -48,6 +48,7 @@ type Options struct {
 	NumWorkers   int
 	SendDuration time.Duration
 	RootPaths    []string // overrides Roots when set
+	Proxy        bool     // gRPC: put a cuttable TCP proxy between client and server
 }
 
 // Env is one opened database.
@@ -60,6 +61,9 @@ type Env struct {
 	stop context.CancelFunc
 	done chan error
 	Addr string
+	// Direct is a second gRPC client connected straight to the server (Grpc mode with Proxy).
+	Direct fs_db.DB
+	proxy  *cutProxy
 }
 
 // Cfg builds the configuration for the options.
@@ -136,7 +140,22 @@ func Open(o Options) (*Env, error) {
 		e.done = make(chan error, 1)
 		e.Addr = lis.Addr().String()
 		go func() { e.done <- a.Serve(ctx, lis) }()
-		db, err := external.Open(context.Background(), e.Addr)
+		clientAddr := e.Addr
+		if o.Proxy {
+			px, err := newCutProxy(e.Addr)
+			if err != nil {
+				cancel()
+				return nil, err
+			}
+			e.proxy = px
+			clientAddr = px.addr
+			e.Direct, err = external.Open(context.Background(), e.Addr)
+			if err != nil {
+				cancel()
+				return nil, err
+			}
+		}
+		db, err := external.Open(context.Background(), clientAddr)
 		if err != nil {
 			cancel()
 			return nil, err
@@ -153,6 +172,9 @@ func (e *Env) Close() error {
 		return e.DB.Close()
 	default:
 		_ = e.DB.Close()
+		if e.proxy != nil {
+			e.proxy.close()
+		}
 		e.stop()
 		select {
 		case <-e.done:
@@ -285,4 +307,106 @@ func (e *Env) Walk(hash bool) (files []FileInfo, dirs map[string][]string, err e
 func Sum(b []byte) string {
 	s := sha256.Sum256(b)
 	return hex.EncodeToString(s[:])
+}
+
+// CutAfter arms the proxy: the connection is cut once n more client->server bytes were forwarded.
+func (e *Env) CutAfter(n int64) {
+	if e.proxy != nil {
+		e.proxy.arm(n)
+	}
+}
+
+// CutFired tells whether the armed cut happened (and disarms).
+func (e *Env) CutFired() bool {
+	if e.proxy == nil {
+		return false
+	}
+	return e.proxy.fired()
+}
+
+type cutProxy struct {
+	lis    net.Listener
+	addr   string
+	target string
+	mu     sync.Mutex
+	left   int64 // <0: not armed
+	cut    bool
+	conns  []net.Conn
+}
+
+func newCutProxy(target string) (*cutProxy, error) {
+	lis, err := net.Listen("tcp", "127.0.0.1:0")
+	if err != nil {
+		return nil, err
+	}
+	p := &cutProxy{lis: lis, addr: lis.Addr().String(), target: target, left: -1}
+	go p.serve()
+	return p, nil
+}
+
+func (p *cutProxy) arm(n int64) { p.mu.Lock(); p.left, p.cut = n, false; p.mu.Unlock() }
+func (p *cutProxy) fired() bool {
+	p.mu.Lock()
+	defer p.mu.Unlock()
+	f := p.cut
+	p.left, p.cut = -1, false
+	return f
+}
+func (p *cutProxy) close() {
+	p.lis.Close()
+	p.mu.Lock()
+	for _, c := range p.conns {
+		c.Close()
+	}
+	p.mu.Unlock()
+}
+
+func (p *cutProxy) serve() {
+	for {
+		c, err := p.lis.Accept()
+		if err != nil {
+			return
+		}
+		s, err := net.Dial("tcp", p.target)
+		if err != nil {
+			c.Close()
+			continue
+		}
+		p.mu.Lock()
+		p.conns = append(p.conns, c, s)
+		p.mu.Unlock()
+		go func() { io.Copy(c, s); c.Close(); s.Close() }()
+		go func() {
+			buf := make([]byte, 4096)
+			for {
+				n, err := c.Read(buf)
+				if n > 0 {
+					p.mu.Lock()
+					cutNow := false
+					if p.left >= 0 {
+						p.left -= int64(n)
+						if p.left <= 0 {
+							cutNow, p.cut, p.left = true, true, -1
+						}
+					}
+					p.mu.Unlock()
+					if cutNow {
+						c.Close()
+						s.Close()
+						return
+					}
+					if _, werr := s.Write(buf[:n]); werr != nil {
+						c.Close()
+						s.Close()
+						return
+					}
+				}
+				if err != nil {
+					c.Close()
+					s.Close()
+					return
+				}
+			}
+		}()
+	}
 }
